@@ -219,8 +219,10 @@ def run(ctx, chk, tier):
     # single-pass sampling for a class that is small or absent (p = 1 / nb_hard of an empty class divides by zero)
     from . import c11
     c11.dynamic_method(ctx, chk, rule="R18.7", classes=(c11.GROUP,))
+    frame_state_untouched(ctx, chk)
     chk.floor("R18.2", 12, "12 configuration combinations")
     chk.floor("R18.3", 6, "6 bootstrap combinations")
+    chk.floor("R18.8", 1, "the BiasFrame methods")
 
 
 def rate_of(M):
@@ -256,3 +258,161 @@ def normalised(values, normalize, minsrc, overall):
 def first_diff(a, b):
     from .c07 import first_difference
     return first_difference(a, b, "values") or ("values", a, b)
+
+
+# ---------------------------------------------------------------------------------------------------------------------------------
+FRAME_FIELDS = ("values", "lower", "upper")
+# pandas operations that write into the frame they are called on (everything else returns a new object unless inplace=True)
+FRAME_WRITERS = {"update", "insert", "pop", "drop_duplicates_", "clip_", "setitem", "__setitem__", "itemset", "fill", "sort", "put"}
+FRAME_INDEXERS = {"loc", "iloc", "at", "iat"}
+
+
+def frame_state_untouched(ctx, chk):
+    """R18.8 the entries of a returned BiasFrame are those showbias computed: no method of the frame (rendering, formatting) writes into
+    `values` / `lower` / `upper` or re-binds them.  Syntax-directed may-alias analysis per method: a name may alias a field when it is bound to
+    `self.<field>` directly or through a conditional expression / another such name; every pandas method call yields a new frame unless it is
+    called with inplace=True or is one of the writers."""
+    import ast
+    try:
+        cls = ctx.db.cls("score_analysis.showbias.BiasFrame")
+    except Exception:  # noqa: BLE001
+        chk.unknown("R18.8", "BiasFrame not found")
+        return
+    for name, fi in sorted(cls.methods.items()):
+        if name.startswith("__") and name != "__post_init__":
+            continue
+        node = fi.node
+        findings = []
+
+        def alias_of(e, st):
+            if isinstance(e, ast.Attribute) and isinstance(e.value, ast.Name) and e.value.id == "self" and e.attr in FRAME_FIELDS:
+                return {e.attr}
+            if isinstance(e, ast.Name):
+                return set(st.get(e.id, ()))
+            if isinstance(e, ast.IfExp):
+                return alias_of(e.body, st) | alias_of(e.orelse, st)
+            if isinstance(e, ast.NamedExpr):
+                return alias_of(e.value, st)
+            if isinstance(e, ast.BoolOp):
+                return set().union(*[alias_of(v, st) for v in e.values])
+            if isinstance(e, ast.Subscript):
+                # frame[col] / frame.loc[...] hand out columns / blocks that may share the frame's storage
+                b = e.value
+                if isinstance(b, ast.Attribute) and b.attr in FRAME_INDEXERS:
+                    b = b.value
+                return alias_of(b, st)
+            if isinstance(e, ast.Attribute) and e.attr in ("T", "values"):
+                return alias_of(e.value, st)
+            return set()
+
+        def written(target, st, how, line):
+            t = target
+            if isinstance(t, ast.Subscript):
+                b = t.value
+                if isinstance(b, ast.Attribute) and b.attr in FRAME_INDEXERS:
+                    b = b.value
+                al = alias_of(b, st)
+                if al:
+                    findings.append((line, "%s into %s (may be self.%s)" % (how, ast.unparse(t)[:60], "/".join(sorted(al)))))
+            elif isinstance(t, ast.Attribute):
+                if isinstance(t.value, ast.Name) and t.value.id == "self" and t.attr in FRAME_FIELDS:
+                    findings.append((line, "self.%s is re-bound" % t.attr))
+                else:
+                    al = alias_of(t.value, st)
+                    if al:
+                        findings.append((line, "attribute %s of self.%s is assigned" % (t.attr, "/".join(sorted(al)))))
+            elif isinstance(t, (ast.Tuple, ast.List)):
+                for x in t.elts:
+                    written(x, st, how, line)
+
+        def calls(n, st):
+            for c in [x for x in ast.walk(n) if isinstance(x, ast.Call)]:
+                f = c.func
+                if not isinstance(f, ast.Attribute):
+                    continue
+                recv = f.value
+                al = alias_of(recv, st)
+                if not al:
+                    continue
+                inplace = any(k.arg == "inplace" and not (isinstance(k.value, ast.Constant) and k.value.value is False) for k in c.keywords)
+                if inplace or f.attr in FRAME_WRITERS:
+                    findings.append((c.lineno, "%s(%s) on self.%s" % (f.attr, "inplace=True" if inplace else "", "/".join(sorted(al)))))
+
+        def block(body, st):
+            for x in body:
+                st = stmt(x, st)
+            return st
+
+        def join(a, b):
+            return {k: set(a.get(k, ())) | set(b.get(k, ())) for k in set(a) | set(b)}
+
+        def stmt(x, st):
+            if isinstance(x, (ast.FunctionDef, ast.ClassDef)):
+                return st
+            if isinstance(x, ast.Assign):
+                calls(x.value, st)
+                v = alias_of(x.value, st)
+                for t in x.targets:
+                    if isinstance(t, ast.Name):
+                        st[t.id] = set(v)
+                    else:
+                        written(t, st, "store", x.lineno)
+                return st
+            if isinstance(x, ast.AnnAssign):
+                if x.value is not None:
+                    calls(x.value, st)
+                    if isinstance(x.target, ast.Name):
+                        st[x.target.id] = alias_of(x.value, st)
+                    else:
+                        written(x.target, st, "store", x.lineno)
+                return st
+            if isinstance(x, ast.AugAssign):
+                calls(x.value, st)
+                if isinstance(x.target, ast.Name):
+                    al = alias_of(x.target, st)
+                    if al:
+                        findings.append((x.lineno, "augmented assignment to %s (may be self.%s, updated in place)" % (x.target.id, "/".join(sorted(al)))))
+                else:
+                    written(x.target, st, "augmented store", x.lineno)
+                return st
+            if isinstance(x, ast.Delete):
+                for t in x.targets:
+                    written(t, st, "del", x.lineno)
+                return st
+            if isinstance(x, ast.If):
+                calls(x.test, st)
+                return join(block(x.body, {k: set(v) for k, v in st.items()}), block(x.orelse, {k: set(v) for k, v in st.items()}))
+            if isinstance(x, (ast.For, ast.While)):
+                if isinstance(x, ast.For):
+                    calls(x.iter, st)
+                    if isinstance(x.target, ast.Name):
+                        st[x.target.id] = set()
+                s_ = st
+                for _ in range(2):
+                    s_ = join(s_, block(x.body, {k: set(v) for k, v in s_.items()}))
+                return join(s_, block(x.orelse, {k: set(v) for k, v in s_.items()}))
+            if isinstance(x, ast.With):
+                for it in x.items:
+                    calls(it.context_expr, st)
+                return block(x.body, st)
+            if isinstance(x, ast.Try):
+                s_ = block(x.body, {k: set(v) for k, v in st.items()})
+                for h in x.handlers:
+                    s_ = join(s_, block(h.body, {k: set(v) for k, v in st.items()}))
+                return block(x.finalbody, block(x.orelse, s_))
+            calls(x, st)
+            return st
+
+        # the loop bodies are visited twice (fixed point): de-duplicate the findings
+        block(node.body, {})
+        q = "score_analysis.showbias.BiasFrame." + name
+        seen = set()
+        for line, what in findings:
+            if (line, what) in seen:
+                continue
+            seen.add((line, what))
+            chk.violation("R18.8", q, "%s:writes-frame:%s" % (name, what.split(" (")[0][:60]), what,
+                          "the frame's values / lower / upper stay what showbias computed: a rendering method formats a copy",
+                          "%s:%d" % (fi.module.relpath, line))
+        if not findings:
+            chk.hold("R18.8", "BiasFrame.%s" % name, "no store, in-place update or re-binding reaches self.values / self.lower / self.upper")
